@@ -485,6 +485,10 @@ impl Translator {
             }
         }
 
+        #[cfg(feature = "verif")]
+        if crate::vm::verif::skip_optimizer() {
+            return st;
+        }
         st.lines = optimize(st.lines);
 
         st
